@@ -150,6 +150,19 @@ def identifier_read(O):
             outs = eng.field(eng.deref(p.args.fields[1]), m.fidx("Parser", "expected_outputs"))
             if T(eng, ent[0].args[0]) is not outs:
                 R.fail(O, p, "an output read is recorded in the wrong table", extra=cond)
+            # the location kept with the read is the identifier's own span: distinct names have distinct locations, so the
+            # order Parser::finish gives the reads (sorted by where they start) is determined by the text
+            oi = p.calls(r"Entry.*::or_insert$")
+            if len(oi) == 1:
+                sp = oi[0].args[1]
+                try:
+                    st_, en_ = eng.scalar(eng.field(sp, 0, "usize")), eng.scalar(eng.field(sp, 1, "usize"))
+                    R.prove(O, p, z3.And(st_ == z3.BitVec("tok0.start", 64), en_ == z3.BitVec("tok0.end", 64)),
+                            "the location recorded for an output read is the identifier's own span", extra=cond)
+                except Exception as e:
+                    R.fail(O, p, "the location recorded for an output read is not a span (%s)" % str(e)[:60], extra=cond)
+            elif ent:
+                R.fail(O, p, "an output read is recorded without exactly one location (%d)" % len(oi), extra=cond)
     if n == 0:
         O.inconclusive("vacuous")
 
